@@ -507,8 +507,12 @@ def _check_derivative(res, fam, e, x, g, mode):
         return
     ref = -fth / fx
     # magnitude of f_theta over the bracket: the rounding noise of f_theta(x) near the root is relative to this
-    s = onp.maximum(onp.abs(R.fth_np(fam, e["lo"], th)), onp.abs(R.fth_np(fam, e["hi"], th)))
-    s = onp.where(onp.isfinite(s), s, 0.0)
+    # (an end where the closed form is singular -- a bracket starting at a point of infinite slope -- contributes nothing;
+    # the bracket midpoint is sampled as well so that the scale does not collapse to zero in that case)
+    def _mag(xx):
+        v = onp.abs(R.fth_np(fam, xx, th))
+        return onp.where(onp.isfinite(v), v, 0.0)
+    s = onp.maximum(onp.maximum(_mag(e["lo"]), _mag(e["hi"])), _mag(0.5 * (e["lo"] + e["hi"])))
     allowed = DERIV_RTOL * (onp.abs(ref) + s / abs(fx)) + 1e-300
     err = onp.abs(onp.asarray(g, dtype=float) - ref)
     err = onp.where(onp.isfinite(err), err, onp.inf)
